@@ -128,6 +128,9 @@ enum Ending {
     /// a select! whose two arms become ready back to back: the loser is cancelled while it
     /// finishes (its coroutine, not the predecessor's, is what goes back to the pool)
     SelectRace,
+    /// cancelled while parked; a value on its stack yields in its destructor (user code may do
+    /// that), i.e. the coroutine passes through a yield while the cancel unwinds it
+    CancelYieldInDrop,
 }
 
 #[derive(Debug, Clone, Copy, PartialEq)]
@@ -158,7 +161,7 @@ fn gen(seed: u64) -> Params {
     let rounds = (0..n)
         .map(|_| {
             (
-                *r.pick(&[Ending::Normal, Ending::Panic, Ending::CancelWhileParked, Ending::TimedOutPark, Ending::TimeoutCancelRace, Ending::TimedOutSem, Ending::CancelPostRace, Ending::CancelUnlockRace, Ending::SelectRace]),
+                *r.pick(&[Ending::Normal, Ending::Panic, Ending::CancelWhileParked, Ending::TimedOutPark, Ending::TimeoutCancelRace, Ending::TimedOutSem, Ending::CancelPostRace, Ending::CancelUnlockRace, Ending::SelectRace, Ending::CancelYieldInDrop]),
                 *r.pick(&[First::BlockerPark, First::SemWait, First::Recv, First::Lock, First::Sleep, First::LocalRead, First::Yield, First::IoRead, First::IoRead]),
                 r.chance(2, 3),
             )
@@ -171,6 +174,14 @@ fn gen(seed: u64) -> Params {
             (Ctx::gen(&mut r), (0..k).map(|_| r.below(5) as u8).collect())
         })
         .collect();
+    // a destructor that yields while its coroutine unwinds is legal user code, but std counts
+    // panics per OS thread: if such a coroutine came back on another worker both workers would
+    // keep a wrong count for good (nothing may claims anything about that). One worker: the
+    // count is right again as soon as the unwinding is over
+    let rounds: Vec<(Ending, First, bool)> = rounds;
+    if rounds.iter().any(|r| r.0 == Ending::CancelYieldInDrop) {
+        rt.workers = 1;
+    }
     Params { rt, rounds, background }
 }
 
@@ -238,6 +249,17 @@ pub fn run(seed: u64, mut ov: impl FnMut(&mut engine::Cfg)) -> ! {
                         coroutine::park();
                         coroutine::park();
                     }
+                    Ending::CancelYieldInDrop => {
+                        struct YieldOnDrop;
+                        impl Drop for YieldOnDrop {
+                            fn drop(&mut self) {
+                                coroutine::yield_now();
+                            }
+                        }
+                        let _y = YieldOnDrop;
+                        coroutine::park();
+                        coroutine::park();
+                    }
                     Ending::TimedOutPark => {
                         let b = Blocker::current();
                         match b.park(Some(Duration::from_millis(1))) {
@@ -276,7 +298,7 @@ pub fn run(seed: u64, mut ov: impl FnMut(&mut engine::Cfg)) -> ! {
             })
         };
         match ending {
-            Ending::CancelWhileParked => {
+            Ending::CancelWhileParked | Ending::CancelYieldInDrop => {
                 loop {
                     if rt::wait_flag(&started, 100) {
                         break;
@@ -329,7 +351,7 @@ pub fn run(seed: u64, mut ov: impl FnMut(&mut engine::Cfg)) -> ! {
         drop(held.take());
         match (ending, &pr) {
             (Ending::Panic, Err(e)) if e.downcast_ref::<Scripted>().map(|s| s.0) == Some(pred_id) => {}
-            (Ending::CancelWhileParked, Err(e)) | (Ending::TimeoutCancelRace, Err(e))
+            (Ending::CancelWhileParked, Err(e)) | (Ending::CancelYieldInDrop, Err(e)) | (Ending::TimeoutCancelRace, Err(e))
                 if matches!(e.downcast_ref::<generator::Error>(), Some(generator::Error::Cancel)) => {}
             (Ending::TimeoutCancelRace, Ok(())) => {}
             (Ending::CancelPostRace, Err(e)) | (Ending::CancelUnlockRace, Err(e))
